@@ -21,26 +21,31 @@ def shapes(tier):
 
 
 def _desc_layout(mod):
-    t = mod.types.get('struct.Avtp_FieldDescriptor')
-    if t is None:
-        raise Broken('struct Avtp_FieldDescriptor not found in the IR')
-    size = mod.sizeof(t)
-    offs = [mod.field_offset(t, i)[0] for i in range(3)]
-    return size, offs
+    """(sizeof, {member: (offset, size)}) of Avtp_FieldDescriptor_t as folded by the compiler (Ctx.facts)"""
+    lay = getattr(mod, 'desc_layout', None)
+    if lay is None:
+        raise Broken('layout of Avtp_FieldDescriptor_t was not evaluated (Ctx.facts() not called)')
+    return lay
 
 
 def _table(mod, q, o, w):
-    size, offs = _desc_layout(mod)
+    size, members = _desc_layout(mod)
     # two rows: row 0 is a decoy, row 1 the descriptor under analysis
     mem = {}
     for i in range(2 * size):
         mem[i] = 0
-    mem[offs[0]] = 0
-    mem[offs[1]] = 5
-    mem[offs[2]] = 11
-    mem[size + offs[0]] = q
-    mem[size + offs[1]] = o
-    mem[size + offs[2]] = w
+
+    def put(row, member, value):
+        off, n = members[member]
+        bs = (value & ((1 << (8 * n)) - 1)).to_bytes(n, 'big' if mod.big_endian else 'little')
+        for i in range(n):
+            mem[row * size + off + i] = bs[i]
+    put(0, 'quadlet', 0)
+    put(0, 'offset', 5)
+    put(0, 'bits', 11)
+    put(1, 'quadlet', q)
+    put(1, 'offset', o)
+    put(1, 'bits', w)
     return Region(TBL, 'global', 2 * size, mem, writable=False)
 
 
